@@ -290,7 +290,9 @@ func Respell(bt *Built, how string, r *base.Rand) (RenderOpts, int) {
 			al = b.NewPkg("m/al", "al", "al")
 			alf = b.NewFile(al, "al.go")
 			for _, t := range bt.Types {
-				alf.Decls = append(alf.Decls, b.tstmt("type "+name(t)+" = %T", free(refT(t, SubOther), TONL)))
+				if exportedName(t.Name) {
+					alf.Decls = append(alf.Decls, b.tstmt("type "+name(t)+" = %T", free(refT(t, SubOther), TONL)))
+				}
 			}
 		}
 		spelled := map[*Line]bool{}
